@@ -287,6 +287,45 @@ func ResolveAnchors(p *Prog) *Anchors {
 			return
 		}
 		a.Reach[fn] = true
+		// a package-level function variable initialised from library code that wraps a repo function
+		// (`var f = sync.OnceValues(func() ...)`): calling f runs the wrapped function
+		instrsOf(fn, func(in ssa.Instruction) {
+			u, ok := in.(*ssa.UnOp)
+			if !ok {
+				return
+			}
+			g, ok := u.X.(*ssa.Global)
+			if !ok {
+				return
+			}
+			if _, isSig := derefType(g.Type()).Underlying().(*types.Signature); !isSig {
+				return
+			}
+			for _, f := range p.RepoFuncs {
+				if f.Name() != "init" {
+					continue
+				}
+				instrsOf(f, func(i2 ssa.Instruction) {
+					st, ok := i2.(*ssa.Store)
+					if !ok || st.Addr != ssa.Value(g) {
+						return
+					}
+					call, ok := st.Val.(*ssa.Call)
+					if !ok {
+						return
+					}
+					for _, arg := range call.Call.Args {
+						if _, isSig := arg.Type().Underlying().(*types.Signature); !isSig {
+							continue
+						}
+						fns, _ := p.funcValueRoots(arg, nil)
+						for _, cb := range fns {
+							walk(cb, fg)
+						}
+					}
+				})
+			}
+		})
 		n := p.CG.Nodes[fn]
 		if n == nil {
 			return
@@ -554,6 +593,18 @@ func ResolveAnchors(p *Prog) *Anchors {
 				}
 			}
 		})
+		// ... or the fixed part of the table lives in a package-level map that the function hands out / clones
+		if !found && len(sigResults(fn)) == 1 {
+			if _, isMap := sigResults(fn)[0].Underlying().(*types.Map); isMap {
+				for _, g := range globalMapsLoadedIn(fn) {
+					for _, k := range globalMapLiteralKeys(g) {
+						if k == "Transfer-Encoding" {
+							found = true
+						}
+					}
+				}
+			}
+		}
 		return found
 	})
 	if ht != nil {
